@@ -49,7 +49,13 @@ impl ParseData for FromAttributesOptions {
     }
 
     fn parse_field(&mut self, field: &syn::Field) -> Result<()> {
-        self.base.parse_field(field)
+        // `FromAttributes` is handed a list of attributes only: there is no identifier
+        // to pass on, so a field named `ident` is an ordinary field here.
+        if field.ident.as_ref().map(|i| i == "ident").unwrap_or_default() {
+            self.base.container.parse_field(field)
+        } else {
+            self.base.parse_field(field)
+        }
     }
 
     fn validate_body(&self, errors: &mut crate::error::Accumulator) {
